@@ -356,14 +356,23 @@ def random_renaming(rnd, names, guard, mode=None, stats=None):
     return {v: v for v in names}
 
 
-def macro_capitals_renaming(rnd, names, guard):
+def macro_capitals_renaming(rnd, names, guard, src=None):
     """The stream outside the proved class: isupper() macro names -> another isupper() name of the same length
-    whose number of capitals may differ (BUF -> B_1).  Everything else stays."""
+    whose number of capitals may differ (BUF -> B_1).  Everything else stays.
+    An all-capitals name that a violating variant DECLARES as a function (`size_t<TAB>M44(...)` on a top-level line) is
+    not a macro name: the tool reports FORBIDDEN_CHAR_NAME once per illegal character of a function name, so there the
+    number of capitals is observable (that is why the proved class keeps it) - such names stay."""
+    import re
     names = sorted(set(names))
     m = {v: v for v in names}
     used = set(names)
+    declared = set()
+    if src is not None:
+        for line in src.split("\n"):
+            if line and line[0] not in "#\t /{}":
+                declared.update(re.findall(r"([A-Za-z_][A-Za-z0-9_]*)\s*\(", line))
     for v in names:
-        if not (v.isupper() and not fixed_name(v, guard) and len(v) > 1):
+        if not (v.isupper() and not fixed_name(v, guard) and len(v) > 1) or v in declared:
             continue
         for _ in range(30):
             c = [rnd.choice(UPPER)] + [rnd.choice(UPPER + DIGIT_ + DIGIT_) for _ in v[1:]]
